@@ -143,7 +143,7 @@ struct SlotGuard {
 // huge aliased window for max_len >= 2^31 (rolling hash, mh update)
 static uint8_t *g_hwin = nullptr, *g_hpat = nullptr;
 static const size_t HPER = 2u << 20;
-static const uint64_t HSIZE = (2ull << 30) + 4 * HPER;
+static const uint64_t HSIZE = (4ull << 30) + 16 * HPER; // covers a single call of 2^32 + 8 MiB bytes
 static void build_hwin()
 {
         if (g_hwin)
@@ -161,6 +161,29 @@ static void build_hwin()
         for (uint64_t off = 0; off < HSIZE; off += HPER)
                 if (mmap(g_hwin + off, HPER, PROT_READ, MAP_SHARED | MAP_FIXED, fd, 0) == MAP_FAILED) {
                         perror("mmap alias");
+                        exit(2);
+                }
+        close(fd);
+}
+
+// writable twin of the window for the output of >= 2^32-byte GCM calls: every 2 MiB of it is the same memory, so after a call the
+// period holds the last bytes written at each offset mod 2 MiB (a pure function of the complete output)
+static uint8_t *g_howin = nullptr, *g_hopat = nullptr;
+static void build_howin()
+{
+        if (g_howin)
+                return;
+        int fd = memfd_create("isalsim-howin", 0);
+        if (fd < 0 || ftruncate(fd, HPER) != 0) {
+                perror("memfd");
+                exit(2);
+        }
+        g_hopat = (uint8_t *) mmap(nullptr, HPER, PROT_READ | PROT_WRITE, MAP_SHARED, fd, 0);
+        uint8_t *base = (uint8_t *) mmap(nullptr, HSIZE + 2 * 4096, PROT_NONE, MAP_PRIVATE | MAP_ANONYMOUS | MAP_NORESERVE, -1, 0);
+        g_howin = base + 4096;
+        for (uint64_t off = 0; off < HSIZE; off += HPER)
+                if (mmap(g_howin + off, HPER, PROT_READ | PROT_WRITE, MAP_SHARED | MAP_FIXED, fd, 0) == MAP_FAILED) {
+                        perror("mmap alias (out)");
                         exit(2);
                 }
         close(fd);
@@ -320,6 +343,23 @@ struct StreamSim : Sim {
                                 p.cfg[k + "share"] = (i > 0 && g.chance(1, 3)) ? 1 : 0;
                                 p.cfg[k + "keyexp"] = (int64_t) g.below(2);
                         }
+                }
+                bool huge_gcm = focus == "C07" && (thorough ? run_index % 50000 < 16 : run_index < 8);
+                if (huge_gcm) {
+                        // one GCM client whose message is longer than 2^32 bytes: one-shot call, one update call and a split into pieces
+                        // below 2^32 (one of them >= 2^31) must agree. Family and direction go round-robin with the run index.
+                        p.cfg["clients"] = 1;
+                        p.cfg["c0_kind"] = K_GCM;
+                        p.cfg["c0_fam"] = (int64_t) (run_index % 4);
+                        p.cfg["c0_dec"] = (int64_t) ((run_index / 4) % 2);
+                        p.cfg["c0_ks"] = (int64_t) ((run_index / 8 + g.below(2)) % 2);
+                        p.cfg["c0_nt"] = 0;
+                        p.cfg["c0_inplace"] = 0;
+                        p.cfg["c0_share"] = 0;
+                        p.cfg["c0_api"] = (int64_t) g.below(2);
+                        p.cfg["c0_huge"] = 1;
+                        p.cfg["c0_phase"] = (int64_t) g.below(4096);
+                        p.cfg["c0_hugelen"] = (int64_t) g.below(6u << 20);
                 }
                 if (huge_run) {
                         // one client streaming >= 2^31 bytes from the aliased window in a single call
@@ -1080,6 +1120,7 @@ struct StreamSim : Sim {
                                                         c.share_with = j;
                                                         break;
                                                 }
+                                c.huge = p.get((k + "huge").c_str()) != 0;
                                 c.ctx = e.mem.alloc(sizeof(struct isal_gcm_context_data), 8, pl, &e.hidden, "gcm context", R_OBJECT, 8 * (size_t) (i + 1));
                                 gcm_make_key(s, c, i);
                         }
@@ -1091,7 +1132,9 @@ struct StreamSim : Sim {
                         if (c.huge && c.kind == K_ROLL) {
                                 pick_hitfree(s, c);
                                 roll_setup_huge(s, c, i);
-                        } else
+                        } else if (c.huge && c.kind == K_GCM)
+                                gcm_huge(s, c, i);
+                        else
                                 start(s, i);
                 }
                 for (size_t oi = 0; oi < p.ops.size(); oi++) {
@@ -1138,6 +1181,125 @@ struct StreamSim : Sim {
         }
 
         // ---- huge helpers
+        // A message of more than 2^32 bytes taken from the aliased read-only window, output into the aliased writable window:
+        // (a) one-shot call, (b) init + pieces below 2^32 bytes + finalize, (c) init + one update of the whole length + finalize.
+        // Tags and the final content of the output period must agree.
+        void gcm_huge(St &s, SClient &c, int ci)
+        {
+                Env &e = *s.env;
+                build_hwin();
+                build_howin();
+                const Plan &p = *s.p;
+                int bits = c.ks ? 256 : 128;
+                const uint64_t n = (1ull << 32) + (1u << 20) + (uint64_t) p.get("c0_hugelen") % (6u << 20);
+                const uint8_t *in = g_hwin + (size_t) (p.get("c0_phase") % 4096);
+                uint8_t *out = g_howin + (size_t) ((p.get("c0_phase") >> 4) % 251);
+                Rng g(mix64(p.seed, 0x6c30000ULL + (uint64_t) ci), "iv");
+                c.iv = e.mem.alloc(12, 1, END_FLUSH, nullptr, "gcm iv", R_INPUT);
+                g.fill(c.iv, 12);
+                e.mem.snapshot(c.iv);
+                c.aad = e.mem.alloc(c.aad_len, 1, END_FLUSH, nullptr, "gcm aad", R_INPUT);
+                g.fill(c.aad, c.aad_len);
+                e.mem.snapshot(c.aad);
+                const char *fam = gcm_fams[c.fam];
+                const char *dir = c.dec ? "dec" : "enc";
+                std::string site = strfmt("gcm%d/%s/%s", bits, fam, dir);
+                s.r->cov.hit(strfmt("probe_gcm_message_gt_2^32_%s_%s", fam, dir));
+                struct Pass {
+                        std::vector<uint8_t> tag;
+                        uint64_t outh;
+                };
+                auto scrub = [&]() {
+                        Rng sc(mix64(p.seed, 0x5c2b), "scrub");
+                        sc.fill(g_hopat, HPER);
+                };
+                auto finish = [&](uint8_t *tag) {
+                        Pass ps;
+                        ps.tag.assign(tag, tag + c.tag_len);
+                        ps.outh = hash_bytes(g_hopat, HPER);
+                        return ps;
+                };
+                auto init_call = [&]() {
+                        gcm_secrets(s, c);
+                        if (c.api) {
+                                SlotGuard sg;
+                                sg.set(S.d_init[c.ks], S.ginit[c.ks][c.fam]);
+                                e.call(strfmt("isal_aes_gcm_init_%d", bits).c_str(), S.isal_init[c.ks], { U(c.key_data), U(c.ctx), U(c.iv), U(c.aad), c.aad_len });
+                        } else
+                                e.call(strfmt("_aes_gcm_init_%d_%s", bits, fam).c_str(), S.ginit[c.ks][c.fam], { U(c.key_data), U(c.ctx), U(c.iv), U(c.aad), c.aad_len });
+                };
+                auto update_call = [&](uint64_t pos, uint64_t len) {
+                        gcm_secrets(s, c);
+                        e.ev(mix64(OP_DELIVER, len));
+                        if (c.api) {
+                                SlotGuard sg;
+                                sg.set(c.dec ? S.d_dec_upd[c.ks] : S.d_enc_upd[c.ks], c.dec ? S.dec_upd[c.ks][c.fam] : S.enc_upd[c.ks][c.fam]);
+                                std::string nm = strfmt("isal_aes_gcm_%s_%d_update", dir, bits);
+                                uint64_t rc = e.call(nm.c_str(), c.dec ? S.isal_dec_upd[c.ks] : S.isal_enc_upd[c.ks], { U(c.key_data), U(c.ctx), U(out + pos), U(in + pos), len });
+                                if ((uint32_t) rc)
+                                        e.violation("C07", "update-failed", "C07/update-failed/" + nm, strfmt("%s returned %d for a %llu-byte piece", nm.c_str(), (int) rc, (unsigned long long) len));
+                        } else
+                                e.call(strfmt("_aes_gcm_%s_%d_update_%s", dir, bits, fam).c_str(), c.dec ? S.dec_upd[c.ks][c.fam] : S.enc_upd[c.ks][c.fam],
+                                       { U(c.key_data), U(c.ctx), U(out + pos), U(in + pos), len });
+                };
+                auto fin_call = [&](uint8_t *tag) {
+                        gcm_secrets(s, c);
+                        if (c.api) {
+                                SlotGuard sg;
+                                sg.set(c.dec ? S.d_dec_fin[c.ks] : S.d_enc_fin[c.ks], c.dec ? S.dec_fin[c.ks][c.fam] : S.enc_fin[c.ks][c.fam]);
+                                e.call(strfmt("isal_aes_gcm_%s_%d_finalize", dir, bits).c_str(), c.dec ? S.isal_dec_fin[c.ks] : S.isal_enc_fin[c.ks],
+                                       { U(c.key_data), U(c.ctx), U(tag), (uint64_t) c.tag_len });
+                        } else
+                                e.call(strfmt("_aes_gcm_%s_%d_finalize_%s", dir, bits, fam).c_str(), c.dec ? S.dec_fin[c.ks][c.fam] : S.enc_fin[c.ks][c.fam],
+                                       { U(c.key_data), U(c.ctx), U(tag), (uint64_t) c.tag_len });
+                };
+                uint8_t *tag = e.mem.alloc(c.tag_len, 1, END_FLUSH, &e.hidden, "gcm tag out", R_OUTPUT);
+                // (a) one-shot
+                scrub();
+                gcm_secrets(s, c);
+                e.call(strfmt("_aes_gcm_%s_%d_%s", dir, bits, fam).c_str(), c.dec ? S.dec[c.ks][c.fam] : S.enc[c.ks][c.fam],
+                       { U(c.key_data), U(c.ctx), U(out), U(in), n, U(c.iv), U(c.aad), c.aad_len, U(tag), (uint64_t) c.tag_len });
+                Pass a = finish(tag);
+                // (b) pieces below 2^32 bytes, the first one >= 2^31
+                scrub();
+                init_call();
+                {
+                        uint64_t pos = 0;
+                        uint64_t pieces[4] = { (1ull << 31) + (uint64_t) (p.get("c0_hugelen") % 4099), (1ull << 30) - 1 - (uint64_t) (p.get("c0_phase") % 77),
+                                               1 + (uint64_t) (p.get("c0_phase") % 4095), 0 };
+                        for (int k = 0; k < 4 && pos < n; k++) {
+                                uint64_t len = pieces[k] ? std::min<uint64_t>(pieces[k], n - pos) : n - pos;
+                                update_call(pos, len);
+                                pos += len;
+                        }
+                }
+                fin_call(tag);
+                Pass b = finish(tag);
+                // (c) the whole message in one update call
+                scrub();
+                init_call();
+                update_call(0, n);
+                fin_call(tag);
+                Pass cc = finish(tag);
+                e.obs_bytes(0x6a0 + ci, b.tag.data(), b.tag.size());
+                e.obs(0x6b0 + ci, b.outh);
+                if (a.tag != b.tag || a.outh != b.outh)
+                        e.violation("C07", "huge-oneshot", "C07/huge-oneshot/" + site,
+                                    strfmt("%s: one-shot call over %llu bytes disagrees with the same message streamed in pieces below 2^32 bytes (tag %s vs %s, output %s)",
+                                           site.c_str(), (unsigned long long) n, hex(a.tag.data(), a.tag.size()).c_str(), hex(b.tag.data(), b.tag.size()).c_str(),
+                                           a.outh == b.outh ? "equal" : "differs"));
+                if (cc.tag != b.tag || cc.outh != b.outh)
+                        e.violation("C07", "huge-update", "C07/huge-update/" + site,
+                                    strfmt("%s: a single update call over %llu bytes disagrees with the same message streamed in pieces below 2^32 bytes (tag %s vs %s, output %s)",
+                                           site.c_str(), (unsigned long long) n, hex(cc.tag.data(), cc.tag.size()).c_str(), hex(b.tag.data(), b.tag.size()).c_str(),
+                                           cc.outh == b.outh ? "equal" : "differs"));
+                e.check_buf(tag, "gcm huge");
+                e.check_buf(c.ctx, "gcm huge");
+                e.check_buf(c.key_data, "gcm huge");
+                s.r->cov.hit("stream_finalized_and_verified");
+                c.finalized = true;
+        }
+
         void pick_hitfree(St &s, SClient &c)
         {
                 (void) s;
